@@ -2,11 +2,11 @@
      internal/limiter/client_limiter.go   ClientLimiterOpts.setDefault, ClientLimiter.mask / AllowN / gc
      golang.org/x/time/rate               Limiter.AllowN -> reserveN -> advance   (float64 tokens)
      app/router/limiter.go                cost table, resourceLimiter.AllowN, listener.Accept
-     app/router/server_*.go               the admission call sites (REFUSED / 503 / close)
+     app/router/server_*.go               the acceptance call sites (REFUSED / 503 / close)
 
    Units.  Time is an integer number of nanoseconds (Z).  Tokens are kept scaled by SCALE = 10^9
    ("nano-tokens"), so that the refill  limit[token/s] * elapsed[ns]  is an exact integer for the integer
-   rates the configuration admits (LimiterConfig.Client.Limit is an int).  Everything is linear
+   rates the configuration grants (LimiterConfig.Client.Limit is an int).  Everything is linear
    integer arithmetic.
 
    The bucket is the exact real-number semantics of rate.Limiter.reserveN(t, n, maxFutureReserve = 0):
@@ -16,7 +16,7 @@
        ok := n <= burst && waitDuration <= 0
        if ok { last = t; tokens = tokens }            state changes only on success
    Note the truncation to whole nanoseconds: a deficit smaller than one nanosecond of refill
-   (-tokens < limit * 1ns, i.e. scaled deficit < limit) is still admitted and leaves the bucket
+   (-tokens < limit * 1ns, i.e. scaled deficit < limit) is still granted and leaves the bucket
    (slightly) negative.  The model keeps that: ok <-> n <= burst /\ 0 < tokens_scaled + limit  (lim_margin).
 
    No proofs in this file (LimiterProofs.v). *)
@@ -101,7 +101,7 @@ Definition lim_advance (rate burst : Z) (b : bucket) (now : Z) : Z :=
   Z.min (burst * SCALE) (b_tok b + rate * (now - l)).
 
 (* the quantity the decision depends on: tokens left after taking n, plus one nanosecond of refill.
-   admitted <-> n <= burst /\ 0 < margin *)
+   granted <-> n <= burst /\ 0 < margin *)
 Definition lim_margin (rate burst : Z) (b : bucket) (now n : Z) : Z :=
   lim_advance rate burst b now - n * SCALE + rate.
 
@@ -181,15 +181,15 @@ Fixpoint lim_decisions_for (o : opts) (k : addr) (h : list lev) (ds : list (opti
   | _, _ => []
   end.
 
-(* total (unscaled) cost admitted for key k at times within [t0, t1] *)
-Fixpoint lim_admitted (o : opts) (k : addr) (t0 t1 : Z) (h : list lev) (ds : list (option bool)) : Z :=
+(* total (unscaled) cost granted for key k at times within [t0, t1] *)
+Fixpoint lim_granted (o : opts) (k : addr) (t0 t1 : Z) (h : list lev) (ds : list (option bool)) : Z :=
   match h, ds with
   | e :: h', d :: ds' =>
       (match e, d with
        | EvAllow t a n, Some true =>
            if addr_eqb (mask_addr o a) k && (t0 <=? t) && (t <=? t1) then n else 0
        | _, _ => 0
-       end) + lim_admitted o k t0 t1 h' ds'
+       end) + lim_granted o k t0 t1 h' ds'
   | _, _ => 0
   end.
 
@@ -201,13 +201,13 @@ Definition lim_sorted (h : list lev) : bool :=
 Definition has_gc (h : list lev) : bool := existsb (fun e => match e with EvGc _ => true | _ => false end) h.
 
 (* the executable statement of the window bound for one history (the spec oracle of kind `limiter`):
-   scaled cost admitted for k in [t0,t1]  <  burst + rate*(t1 - t0) + one nanosecond of refill *)
+   scaled cost granted for k in [t0,t1]  <  burst + rate*(t1 - t0) + one nanosecond of refill *)
 Definition bound_ok_ds (o : opts) (k : addr) (t0 t1 : Z) (h : list lev) (ds : list (option bool)) : bool :=
-  lim_admitted o k t0 t1 h ds * SCALE <=? o_burst o * SCALE + o_limit o * (t1 - t0) + (o_limit o - 1).
+  lim_granted o k t0 t1 h ds * SCALE <=? o_burst o * SCALE + o_limit o * (t1 - t0) + (o_limit o - 1).
 Definition bound_ok (o : opts) (k : addr) (t0 t1 : Z) (h : list lev) : bool :=
   bound_ok_ds o k t0 t1 h (lim_decisions o [] h).
 
-(* ------------------------------------------------------------------ admission at the listeners *)
+(* ------------------------------------------------------------------ acceptance at the listeners *)
 
 (* cost table, app/router/limiter.go *)
 Definition costUDPQuery : Z := 1.
@@ -290,7 +290,7 @@ Definition forwards (x : outcome) : bool := match x with OAnswered => true | _ =
 Definition rl_is_ok (x : rl_res) : bool := match x with RlOk => true | _ => false end.
 
 (* a connection from client [a] arrives at listener l *)
-Definition admit_conn (r : rl) (now : Z) (l : listener) (a : addr) : rl * outcome :=
+Definition accept_conn (r : rl) (now : Z) (l : listener) (a : addr) : rl * outcome :=
   match conn_cost l with
   | None => (r, OAccepted)
   | Some c => let x := rl_allow r now a c in
@@ -307,8 +307,8 @@ Definition refusal (l : listener) : outcome :=
   end.
 
 (* a query from client [a] arrives at listener l; [hit] = answered from the cache.
-   After admission handleReq charges costFromCache / costFromUpstream and ignores the result. *)
-Definition admit_query (r : rl) (now : Z) (l : listener) (a : addr) (hit : bool) : rl * outcome :=
+   After acceptance handleReq charges costFromCache / costFromUpstream and ignores the result. *)
+Definition accept_query (r : rl) (now : Z) (l : listener) (a : addr) (hit : bool) : rl * outcome :=
   let x := match query_cost l with
            | Some c => rl_allow r now a c
            | None => (r, RlOk)
@@ -319,15 +319,15 @@ Definition admit_query (r : rl) (now : Z) (l : listener) (a : addr) (hit : bool)
 
 Inductive aev := AConn (l : listener) (a : addr) | AQuery (l : listener) (a : addr) (hit : bool).
 
-Definition admit_step (r : rl) (now : Z) (e : aev) : rl * outcome :=
+Definition listener_step (r : rl) (now : Z) (e : aev) : rl * outcome :=
   match e with
-  | AConn l a => admit_conn r now l a
-  | AQuery l a hit => admit_query r now l a hit
+  | AConn l a => accept_conn r now l a
+  | AQuery l a hit => accept_query r now l a hit
   end.
 
 (* a script of listener events, all at time [now] (the e2e scenario is shorter than one refill) *)
-Fixpoint admit_run (r : rl) (now : Z) (es : list aev) : list outcome :=
+Fixpoint listener_run (r : rl) (now : Z) (es : list aev) : list outcome :=
   match es with
   | [] => []
-  | e :: es' => snd (admit_step r now e) :: admit_run (fst (admit_step r now e)) now es'
+  | e :: es' => snd (listener_step r now e) :: listener_run (fst (listener_step r now e)) now es'
   end.
